@@ -35,6 +35,9 @@ import XotModel.Lemmas.ReachHist
 import XotModel.Lemmas.ReachAxes
 import XotModel.Lemmas.ReachScope
 import XotModel.Lemmas.ReachRepresentable
+import XotModel.Lemmas.FparseHistIds
+import XotModel.Lemmas.FparseHistTables
+import XotModel.Lemmas.ParseWitness
 
 namespace XotModel.Props
 open XotModel
@@ -2176,5 +2179,246 @@ example : Representable reachDocEnv reachDocRoot.erase = true := by
     `C01_reachable_roundtrip` (Props/C01.lean, last section) instantiated at this history. -/
 example : namesWritable reachDocEnv reachDocRoot.erase [] = some true ∧
     toXmlString reachDocEnv reachDocRoot.erase [] = .ok "<!--c--><e a=\"v\">x</e>".toList := by decide +kernel
+
+end XotModel.Props
+
+/-! # ================================================================================================
+    # FULL HISTORIES (branch wt-parsehist): ONE history type for `parse` and every API call
+    # ================================================================================================
+
+  The commonest use of the crate is: parse a text, edit the tree through the API, serialise.  Until here
+  the development had the extended API histories (`Forest.XCall` on a `Store`: `C04_reach_ext`) and,
+  separately, the parser histories (`IdOp` on an `IdStore`: `C04_reach_parse`, whose parse step names the
+  TREE the builder would return and ASSUMES it valid, `IdStore.parseOK`).  Model/FparseHist.lean has one type
+  for both: `PCall` = an extended API call, or `parse mode text` — the text goes through the reference
+  tokenizer and the builder (`parseString`) on the interning tables of the store, an accepted tree is
+  installed with `IdStore.parseInto` (fresh handles in creation order, the xml:id index of the new document
+  node), a rejected one installs nothing (forest and index as they were; the tables keep what the builder
+  interned before the error).  The state `PStore` = forest + interning tables + xml:id index.
+
+  `IdStore.parseOK` is now a THEOREM (`C04_parsed_valid`): `C03_sound`'s node-by-node facts about every
+  accepted tree (`SoundAt`, Lemmas/ParseSound.lean) are exactly the local clauses of `validTree` — the
+  converse of the bridge of Lemmas/ReachNode.lean (Lemmas/FparseHistValid.lean).  Hence `C04_reach_full`:
+  the invariant after EVERY history of parses (of any text, accepted or not, in either mode) and
+  well-kinded API calls, and with it every structural hypothesis of the tree-level theorems for every
+  parentless tree of every such store — parsed documents, edited documents, fragments built by hand. -/
+
+namespace XotModel.Props
+open XotModel
+
+/-- ⟦C04_parsed_valid⟧ **The hypothesis `IdStore.parseOK` of `C04_parse_inv` / `C04_reach_parse` holds of
+    every tree the parser returns**, for every text, both modes, every vocabulary, every store it is
+    parsed into: numbered in creation order from the store's next handle it is `validTree`, strictly (no
+    adjacent text nodes, whatever `everOff` says). -/
+theorem C04_parsed_valid (s : IdStore) (m : Mode) (env : Env) (text : Str) (p : Parsed)
+    (h : parseString m env text = .ok p) : s.parseOK p.tree := fph_parseOK s h
+
+/-- … from any token list, not only the reference tokenizer's. -/
+theorem C04_built_valid (s : IdStore) (m : Mode) (len : Nat) (env : Env) (ts : List Token) (lexErr : Option Nat)
+    (p : Parsed) (h : build m len env ts lexErr = .ok p) : s.parseOK p.tree := fph_parseOK_build s h
+
+/-- The converse of the bridge `C04_inv_structValid`: a handle tree whose ERASURE is ordered, respects the
+    kind rules, has unique attribute names and prefixes per node and no adjacent text nodes is valid. -/
+theorem C04_valid_of_structure (b : Bool) (r : HTree)
+    (h : r.erase.Forall (fun v ks => OrderedKids ks ∧ KindsOk v ks ∧ noAdjText ks = true ∧ UniqueKids ks)) :
+    validTree b r = true := fph_validTree_of_erase b r h
+
+/-- ⟦C04_step_full⟧ One step — an extended API call with arbitrary arguments, or the parse of ANY text —
+    preserves the invariant, whatever it answers. -/
+theorem C04_step_full (s : PStore) (c : PCall) (hi : s.forest.Inv) (hw : c.wellKinded) :
+    (s.step c).forest.Inv := PStore.fph_step_inv hi c hw
+
+theorem C04_reach_full_from (s : PStore) (hi : s.forest.Inv) (cs : List PCall) (hw : ∀ c ∈ cs, c.wellKinded) :
+    (s.run cs).forest.Inv := PStore.fph_run_inv cs hi hw
+
+/-- ⟦C04_reach_full⟧ **Every store reachable from `Xot::new()` by any history of parses and API calls** —
+    `parse` / `parse_fragment` of arbitrary texts (accepted or rejected), the calls of `Forest.Call`, node
+    creation, set_text_consolidation, remove_insignificant_whitespace, create_missing_prefixes,
+    deduplicate_namespaces, clone_with_prefixes, in any order, with arbitrary arguments, for every
+    vocabulary `env` the store starts with and whatever the steps answer — **satisfies the invariant**;
+    and keys and entries of its xml:id index are handles that were handed out (no dangling key can
+    appear later: handles are never re-used, `C04_step_le_full`). -/
+theorem C04_reach_full (env : Env) (cs : List PCall) (hw : ∀ c ∈ cs, c.wellKinded) :
+    ((PStore.init env).run cs).forest.Inv ∧
+    (∀ e ∈ ((PStore.init env).run cs).index,
+      e.1.1 < ((PStore.init env).run cs).forest.next ∧ e.2 < ((PStore.init env).run cs).forest.next) :=
+  ⟨PStore.fph_run_inv cs (PStore.fph_init_inv env) hw, PStore.fph_indexBelow_run cs (PStore.fph_indexBelow_init env)⟩
+
+theorem C04_reach_full_bool (env : Env) (cs : List PCall) (hw : ∀ c ∈ cs, c.wellKinded) :
+    ((PStore.init env).run cs).forest.inv = true := (Forest.inv_iff _).mpr (C04_reach_full env cs hw).1
+
+/-- ⟦C04_reach_full_index⟧ The index invariant of `C04_xml_id_wf` — moreover the KEYS (document, ID value)
+    are unique — along every history whose parses run on well-formed interning tables (`envOK`: true of
+    `Xot::new()`, kept by every accepted parse, `C04_parse_keeps_tables`).  The test
+    `(Tree.idValues t).Nodup` that `IdStore.parse` carries as a stand-in for the builder's `DuplicateId` is
+    a theorem there (`C04_parse_no_duplicate_id`). -/
+theorem C04_reach_full_index (env : Env) (cs : List PCall) (hok : (PStore.init env).parsesOnOKTables cs) :
+    ((PStore.init env).run cs).idStore.Wf := PStore.fph_wf_run cs (PStore.fph_wf_init env) hok
+
+theorem C04_parse_no_duplicate_id (m : Mode) (env : Env) (text : Str) (p : Parsed) (henv : envOK env = true)
+    (h : parseString m env text = .ok p) : (Tree.idValues p.tree).Nodup := fph_accepted_idValues_nodup henv h
+
+theorem C04_parse_keeps_tables (m : Mode) (env : Env) (text : Str) (p : Parsed) (henv : envOK env = true)
+    (h : parseString m env text = .ok p) : envOK p.env = true := fph_accepted_envOK henv h
+
+/-- "Parse one text, then edit": only the tables of the start state matter. -/
+theorem C04_parse_then_edit_tables (env : Env) (henv : envOK env = true) (m : Mode) (text : Str)
+    (cs : List Forest.XCall) : (PStore.init env).parsesOnOKTables (.parse m text :: cs.map .api) :=
+  PStore.fph_parsesOnOKTables_parse_then_api (PStore.init env) henv m text cs
+
+/-- An extended API call only appends to the PREFIX table (`create_missing_prefixes`; every other call
+    leaves the tables alone), for all stores and arguments: well-formed tables stay well formed. -/
+theorem C04_api_keeps_tables (s : Store) (c : Forest.XCall) :
+    Repair.PrefixExt s.env (c.run s).1.env ∧ (envOK s.env = true → envOK (c.run s).1.env = true) :=
+  ⟨Forest.fpht_xcall_ext s c, fun h => Repair.envOK_ext (Forest.fpht_xcall_ext s c) h⟩
+
+/-- ⟦C04_reach_full_index_accepted⟧ From well-formed tables (`Xot::new()`), along every history in which no
+    parse is REJECTED (`PStore.noRejected`; any API calls, `create_missing_prefixes` included): the index
+    invariant with unique keys, and the tables are well formed at the end. -/
+theorem C04_reach_full_index_accepted (env : Env) (henv : envOK env = true) (cs : List PCall)
+    (hacc : (PStore.init env).noRejected cs) :
+    ((PStore.init env).run cs).idStore.Wf ∧ envOK ((PStore.init env).run cs).env = true := by
+  have h := PStore.fpht_parsesOnOKTables_of_noRejected cs (PStore.init env) henv hacc
+  exact ⟨C04_reach_full_index env cs h.1, h.2⟩
+
+/-- ⟦C04_full_embeds⟧ The two older history types are sub-histories: a history of API calls only is the
+    extended history of `Store.xrun` (index untouched); a call of `IdOp` is the step `PCall.ofOp`; the parse
+    of a text accepted on well-formed tables is the step `IdOp.parse` of its tree (`IdStore.parseInto`), and
+    leaves the builder's tables. -/
+theorem C04_full_embeds (s : PStore) :
+    (∀ cs : List Forest.XCall, (s.run (cs.map .api)).store = s.store.xrun cs ∧ (s.run (cs.map .api)).index = s.index) ∧
+    (∀ o : Op, (s.step (.ofOp o)).idStore = s.idStore.step (.call o)) ∧
+    (∀ m text p, envOK s.env = true → parseString m s.env text = .ok p →
+      (s.step (.parse m text)).idStore = s.idStore.step (.parse p.tree) ∧ (s.step (.parse m text)).env = p.env ∧
+      ((PCall.parse m text).run s).2 = .parsed s.forest.next) :=
+  ⟨fun cs => PStore.fph_run_api cs s, fun o => PStore.fph_idStore_step_ofOp s o,
+   fun m text p henv h => ⟨PStore.fph_idStore_step_parse_ok s henv h, by rw [PStore.fph_step_parse_ok s h],
+     by rw [PStore.fph_run_parse_ok s h]; rfl⟩⟩
+
+/-- Handles are never re-used along full histories, hence a removed handle stays removed. -/
+theorem C04_step_le_full (s : PStore) (c : PCall) : Forest.Le s.forest (s.step c).forest := PStore.fph_step_le s c
+
+theorem C04_isRemoved_history_full (s : PStore) (cs : List PCall) (h : Nat)
+    (hr : s.forest.isRemoved h = true) : (s.run cs).forest.isRemoved h = true :=
+  Forest.isRemoved_mono (PStore.fph_run_le cs s) hr
+
+/-- ⟦C04_xml_id_full⟧ `xml_id_node` along full histories ("no accessor ever hands out a removed node"): what
+    it answers is live; the entry of an existing document is never rewritten; as long as the element is
+    not removed the answer stays, whatever is called or parsed; once it is removed the answer is `none`
+    for ever. -/
+theorem C04_xml_id_full (env : Env) (pre : List PCall) (doc h : Nat) (v : Str)
+    (hx : ((PStore.init env).run pre).xmlIdNode doc v = some h) :
+    ((PStore.init env).run pre).forest.isLive h = true ∧
+    ∀ cs : List PCall,
+      (((PStore.init env).run pre).run cs).idStore.lookup doc v = ((PStore.init env).run pre).idStore.lookup doc v ∧
+      ((((PStore.init env).run pre).run cs).forest.isRemoved h = false →
+        (((PStore.init env).run pre).run cs).xmlIdNode doc v = some h) ∧
+      ((((PStore.init env).run pre).run cs).forest.isRemoved h = true →
+        ∀ more : List PCall, ((((PStore.init env).run pre).run cs).run more).xmlIdNode doc v = none) := by
+  have hw := PStore.fph_indexBelow_run pre (PStore.fph_indexBelow_init env)
+  have hl := (IdStore.xmlIdNode_eq_some_iff _ doc v h).mp hx
+  refine ⟨hl.2, fun cs => ⟨?_, PStore.fph_xmlIdNode_stable _ hw cs doc h v hx⟩⟩
+  exact PStore.fph_lookup_run cs _ doc v (hw _ (fi_mem_of_lookup hl.1)).1
+
+/-- ⟦C04_reachable_structure_full⟧ **Every tree of every store a full history reaches is structurally
+    valid**, at every node — the parsed documents, whatever was done to them afterwards, included. -/
+theorem C04_reachable_structure_full (env : Env) (cs : List PCall) (hw : ∀ c ∈ cs, c.wellKinded) :
+    ∀ r ∈ ((PStore.init env).run cs).forest.roots,
+      (∀ (p : Path) (v : Value) (ks : List Tree), r.erase.at? p = some (.node v ks) →
+        OrderedKids ks ∧
+        (v.isLeafKind = true → ks = []) ∧
+        (v.isElement = false → ∀ k ∈ ks, k.value.isNormal = true) ∧
+        (∀ k ∈ ks, k.value.isDocument = false) ∧
+        (attrNames ks).Nodup ∧ (nsPrefixes ks).Nodup ∧
+        (((PStore.init env).run cs).forest.everOff = false → noAdjText ks = true)) ∧
+      (r.value.isDocument = true → StructValid r.erase) ∧
+      (((PStore.init env).run cs).forest.everOff = false → NoAdjacentText r.erase) := by
+  intro r hr
+  have hi := (C04_reach_full env cs hw).1
+  exact ⟨C04_inv_structure _ hi r hr, (C04_inv_structValid _ hi r hr).2.2.2.1, (C04_inv_structValid _ hi r hr).2.2.2.2⟩
+
+/-- ⟦C04_reachable_hypotheses_full⟧ **The structural hypotheses of the tree-level property theorems hold of
+    every root of every store a full history reaches**: `wf` and `kidsSorted` at every node (C07),
+    `UniqueBelow` (C10), `UniqueDeclsBelow` of every subtree (C09, C15), `OnlyElementsDeclare` (C15). -/
+theorem C04_reachable_hypotheses_full (env : Env) (cs : List PCall) (hw : ∀ c ∈ cs, c.wellKinded) :
+    ∀ r ∈ ((PStore.init env).run cs).forest.roots,
+      Axes.wf r.erase = true ∧
+      (∀ p : Path, Axes.kidsSorted (Axes.subAt r.erase p).kids) ∧
+      UniqueBelow r.erase ∧
+      (∀ (path : Path) (sub : Tree), r.erase.at? path = some sub → UniqueDeclsBelow sub) ∧
+      OnlyElementsDeclare r.erase :=
+  C04_inv_hypotheses _ (C04_reach_full env cs hw).1
+
+/-- ⟦C01_reachable_representable_full⟧ The C01 domain of a tree of such a store is a condition on its
+    VALUES only (while consolidation has never been switched off). -/
+theorem C01_reachable_representable_full (env : Env) (cs : List PCall) (hw : ∀ c ∈ cs, c.wellKinded)
+    (hoff : ((PStore.init env).run cs).forest.everOff = false) :
+    ∀ r ∈ ((PStore.init env).run cs).forest.roots, ∀ env' : Env,
+      RepresentableFragment env' r.erase =
+        (envOK env' && r.value.isDocument && r.erase.allNodes (fun v _ => valueOK env' v) &&
+          decide (xmlIdValues env' r.erase).Nodup) ∧
+      Representable env' r.erase =
+        (envOK env' && r.value.isDocument && r.erase.allNodes (fun v _ => valueOK env' v) &&
+          decide (xmlIdValues env' r.erase).Nodup && singleRoot r.erase) :=
+  fun _ hr env' => Reach.representable_root (C04_reach_full env cs hw).1 hoff hr env'
+
+/-! ### Non-vacuity: parse `<r xmlns:p="urn:a"><p:a>t</p:a></r>` into `Xot::new()`, then edit
+
+  `fullText` is accepted from the tables of `Xot::new()` (`Env.fresh`): document 0, `r` = 1 (name 2), its
+  declaration `xmlns:p` = 2, `p:a` = 3 (name 3 in namespace 2), the text 4.  `fullCalls` then creates a new
+  element `{urn:a}a` (handle 5), appends it to `r`, gives it the attribute `p:a="v"` (handle 6) and calls
+  `create_missing_prefixes` on the document; `fullCallsB` first REMOVES the declaration of `p`
+  (`namespaces_mut(r).remove(p)`), so that the repair has to invent `n0` (handle 7, prefix id 3).  A rejected
+  text in between (`<a><b></a>`) changes neither forest nor index, but leaves the names `a`, `b` in the
+  tables. -/
+
+def fullText : Str := "<r xmlns:p=\"urn:a\"><p:a>t</p:a></r>".toList
+def fullCalls : List PCall :=
+  [.parse .document fullText, .api (.newNode (.element 3)), .api (.call (.append 1 5)),
+   .api (.call (.mapInsert .attributes 5 (.attribute 3 ['v']))), .api (.createMissingPrefixes 0)]
+def fullCallsB : List PCall :=
+  [.parse .document fullText, .api (.call (.mapRemove .namespaces 1 2)), .api (.newNode (.element 3)),
+   .api (.call (.append 1 5)), .api (.call (.mapInsert .attributes 5 (.attribute 3 ['v']))),
+   .parse .document "<a><b></a>".toList, .api (.createMissingPrefixes 0)]
+def fullRoot : HTree :=
+  .node 0 .document [.node 1 (.element 2) [.node 2 (.namespace 2 2) [],
+    .node 3 (.element 3) [.node 4 (.text ['t']) []],
+    .node 5 (.element 3) [.node 6 (.attribute 3 ['v']) []]]]
+def fullRootB : HTree :=
+  .node 0 .document [.node 1 (.element 2) [.node 7 (.namespace 3 2) [],
+    .node 3 (.element 3) [.node 4 (.text ['t']) []],
+    .node 5 (.element 3) [.node 6 (.attribute 3 ['v']) []]]]
+
+theorem fullCalls_wellKinded : ∀ c ∈ fullCalls, c.wellKinded := by decide
+theorem fullCallsB_wellKinded : ∀ c ∈ fullCallsB, c.wellKinded := by decide
+
+theorem fullRoots : ((PStore.init Env.fresh).run fullCalls).forest.roots = [fullRoot] := by decide +kernel
+theorem fullRootsB : ((PStore.init Env.fresh).run fullCallsB).forest.roots = [fullRootB] := by decide +kernel
+theorem fullRoot_mem : fullRoot ∈ ((PStore.init Env.fresh).run fullCalls).forest.roots := by
+  rw [fullRoots]; exact List.mem_singleton.mpr rfl
+theorem fullRootB_mem : fullRootB ∈ ((PStore.init Env.fresh).run fullCallsB).forest.roots := by
+  rw [fullRootsB]; exact List.mem_singleton.mpr rfl
+
+example : ((PStore.init Env.fresh).run fullCalls).forest.inv = true := C04_reach_full_bool _ _ fullCalls_wellKinded
+example : ((PStore.init Env.fresh).run fullCallsB).forest.inv = true ∧
+    ((PStore.init Env.fresh).run fullCallsB).env.prefixes = [[], ['x', 'm', 'l'], ['p'], ['n', '0']] ∧
+    ((PStore.init Env.fresh).run fullCallsB).env.names =
+      [(['s', 'p', 'a', 'c', 'e'], 1), (['i', 'd'], 1), (['r'], 0), (['a'], 2), (['a'], 0), (['b'], 0)] := by
+  decide +kernel
+example : StructValid fullRootB.erase :=
+  (C04_reachable_structure_full Env.fresh fullCallsB fullCallsB_wellKinded fullRootB fullRootB_mem).2.1 rfl
+example : Axes.wf fullRootB.erase = true ∧ UniqueBelow fullRootB.erase ∧ OnlyElementsDeclare fullRootB.erase :=
+  let h := C04_reachable_hypotheses_full Env.fresh fullCallsB fullCallsB_wellKinded fullRootB fullRootB_mem
+  ⟨h.1, h.2.2.1, h.2.2.2.2⟩
+example : (PStore.init Env.fresh).parsesOnOKTables fullCalls := by
+  have h : fullCalls = .parse .document fullText :: ([.newNode (.element 3), .call (.append 1 5),
+    .call (.mapInsert .attributes 5 (.attribute 3 ['v'])), .createMissingPrefixes 0] : List Forest.XCall).map .api := rfl
+  rw [h]
+  exact C04_parse_then_edit_tables Env.fresh (by decide +kernel) .document fullText _
+/-- A parsed document with an ID: `xml_id_node` finds the element, and no longer after its removal. -/
+example :
+    let s := (PStore.init Env.fresh).run [.parse .document "<r><e xml:id=\"i\"/></r>".toList]
+    s.xmlIdNode 0 ['i'] = some 2 ∧ (s.run [.api (.call (.remove 2)), .api (.newNode (.element 2))]).xmlIdNode 0 ['i'] = none := by
+  decide +kernel
 
 end XotModel.Props
